@@ -17,7 +17,10 @@ type bigData struct {
 	under, at, over1, over4k    blob.Ref
 	flipped                     []byte // buf[:16MiB] with one bit of the last byte flipped
 	hUnder, hAt, hOver1, hOver4 string
+	near                        blob.Ref // buf[:16MiB-8KiB]: a valid blob whose age ciphertext (about 4.3 KiB longer) is within the limit
 }
+
+const nearLen = maxBlob - 8192
 
 func newBigData(r *ev.Run) *bigData {
 	rng := r.Rand("bigdata")
@@ -28,6 +31,7 @@ func newBigData(r *ev.Run) *bigData {
 	b.at = sto.RefOf(b.hAt, b.buf[:maxBlob])
 	b.over1 = sto.RefOf(b.hOver1, b.buf[:maxBlob+1])
 	b.over4k = sto.RefOf(b.hOver4, b.buf[:maxBlob+4096])
+	b.near = sto.RefOf("sha256", b.buf[:nearLen])
 	b.flipped = append([]byte(nil), b.buf[:maxBlob]...)
 	b.flipped[maxBlob-1] ^= 0x10
 	return b
@@ -43,6 +47,8 @@ func (b *bigData) offer(kind string) *offer {
 		return &offer{Ref: b.over1, RefStr: b.over1.String(), Data: b.buf[:maxBlob+1], Mut: "oversize", Arg: "16MiB+1 bytes under their own ref", Want: wantReject, Boundary: "16MiB+1"}
 	case "over4k":
 		return &offer{Ref: b.over4k, RefStr: b.over4k.String(), Data: b.buf[:maxBlob+4096], Mut: "oversize", Arg: "16MiB+4KiB bytes under their own ref", Want: wantReject, Boundary: "16MiB+4KiB"}
+	case "near":
+		return &offer{Ref: b.near, RefStr: b.near.String(), Data: b.buf[:nearLen], Mut: "near-cap", Arg: "16MiB-8KiB true blob", Want: wantAccept, Boundary: "16MiB-8KiB"}
 	case "flip":
 		return &offer{Ref: b.at, RefStr: b.at.String(), Data: b.flipped, Mut: "flip", Arg: "16MiB blob, last byte bit 4", Want: wantReject, Mismatch: true}
 	case "extcap":
@@ -93,6 +99,10 @@ func (s *session) bigScript(b *bigData) {
 		do("flip", "", "plain")
 		do("under", "", "plain")
 		do("at", "", "frag")
+		if s.spec.Kind == "encrypt" {
+			// a valid blob whose ciphertext still fits (seen by the scan of the lower stores afterwards)
+			do("near", "", "plain")
+		}
 		return
 	}
 	if s.spec.Kind == "encrypt" {
@@ -103,6 +113,9 @@ func (s *session) bigScript(b *bigData) {
 		do("under", "", "half")
 		do("at", "", "plain")
 		do("flip", "", "dataeof")
+		// a valid blob whose ciphertext still fits: it is accepted and its ciphertext is what the scan of
+		// the lower stores sees afterwards
+		do("near", "", "plain")
 		return
 	}
 	transports := []string{""}
